@@ -162,7 +162,7 @@ def child_main(spec_path, out_path):
         name, files, main = sources[k]
         r = compile_record(files, main)
         recs[str(k)] = {"status": r["status"], "ir": _h(r["ir"]), "header": _h(r["header"]), "diag": r["diag"][:3000],
-                        "diag_h": _h(r["diag"])}
+                        "diag_h": _h(r["diag"]), "ir_n": _h(_norm_anon(r["ir"])), "header_n": _h(_norm_anon(r["header"]))}
         if spec.get("repeat") and k % 3 == 0:
             for rep in range(2):
                 r2 = compile_record(files, main)
@@ -261,6 +261,10 @@ def _cli_pair(scratch, idx, files, main):
             with open(os.path.join(d, o, main + ".h")) as f:
                 if f.read() != h1:
                     viol.append(("dir-order-header", "%s: header differs" % tag))
+        elif "Unable to read file" in a.stderr or "Unable to read file" in r.stderr:
+            # the diagnostic for a file found in no directory lists the directories tried, in order: it legitimately
+            # depends on the import path (the property is about directories holding identical files)
+            pass
         elif r.stderr != a.stderr:
             viol.append(("dir-order-diag", "%s: stderr differs: %r vs %r" % (tag, r.stderr[-200:], a.stderr[-200:])))
     return viol
@@ -275,8 +279,11 @@ def run(ctx):
     with common.Scratch("c17") as scratch:
         procs = []
         for k, hs in enumerate(seeds):
-            spec = {"seed": ctx.seed, "n": n, "repeat": k == 0, "tables": k < 3, "reverse": False}
+            spec = {"seed": ctx.seed, "n": n, "repeat": False, "tables": k < 3, "reverse": False}
             procs.append(("hs" + hs, hs) + _spawn(scratch, "hs" + hs, spec, hs))
+        # repetition inside one process: every third source compiled three times (a different history: the process-wide
+        # anonymous-field counter runs ahead, so this process is compared up to that numbering)
+        procs.append(("repeat", seeds[0]) + _spawn(scratch, "repeat", {"seed": ctx.seed, "n": n, "repeat": True}, seeds[0]))
         # interleaving: reversed order in one more process (same hash seed as the first)
         procs.append(("reversed", seeds[0]) + _spawn(scratch, "rev", {"seed": ctx.seed, "n": n, "reverse": True}, seeds[0]))
         # same seed twice (fresh-process repetition)
@@ -326,7 +333,7 @@ def run(ctx):
             if tag == base_tag:
                 continue
             r = o["recs"][k]
-            exact = tag != "reversed"
+            exact = tag not in ("reversed", "repeat")  # same history => byte-identical; else up to anonymous numbering
             diffs = []
             if r["status"] != b["status"]:
                 diffs.append("status %s vs %s" % (b["status"], r["status"]))
@@ -338,6 +345,8 @@ def run(ctx):
                 diffs.append("diagnostics differ at line %d: %r vs %r" % (j + 1, la[j:j + 1], lb[j:j + 1]))
             if exact and (r["ir"] != b["ir"] or r["header"] != b["header"]):
                 diffs.append("IR/header bytes differ")
+            if not exact and (r["ir_n"] != b["ir_n"] or r["header_n"] != b["header_n"]):
+                diffs.append("IR/header bytes differ beyond the numbering of reserved anonymous identifiers")
             if diffs:
                 kind = "hashseed" if tag.startswith("hs") else tag
                 mech = "C17:%s:%s" % (kind, "diag" if "diagnostics" in diffs[0] else ("status" if "status" in diffs[0] else "output"))
@@ -347,9 +356,10 @@ def run(ctx):
                               {"source": name, "files": files, "main": main, "tags": [base_tag, tag],
                                "hashseeds": [outs[base_tag]["hashseed"], o["hashseed"]]})
             ctx.count("comparisons")
-        if "repeat_differs" in b:
+        rb = outs["repeat"]["recs"][k]
+        if "repeat_differs" in rb:
             ctx.violation("C17:in-process-repeat", "%s: repetition %d in one process differs: %r" % (
-                name, b["repeat_differs"]["rep"], b["repeat_differs"]), {"source": name, "files": files, "main": main})
+                name, rb["repeat_differs"]["rep"], rb["repeat_differs"]), {"source": name, "files": files, "main": main})
         if int(k) % 3 == 0:
             ctx.count("in_process_repeats", 2)
     tabs = set(o["tables"] for o in outs.values() if "tables" in o)
